@@ -30,7 +30,9 @@ CLAIMED = {
                  "ring spacing of the predefined scanners, num_rings <= 128, axial positions < 256): ring1+ring2 of an axial position equals "
                  "2*ax/inc + ax_pos_num_offset exactly - the reader contract the ring-pair kernels use. (j) the block that fills ring_diff_to_segment_num (statement kernel, two loop contracts): the table covers every ring "
                  "difference a reader may ask for, writes stay inside it, an entry is the first segment whose interval contains the ring difference or "
-                 "max_segment+1 - with disjoint intervals exactly the reader contract (lemma). Not decided: ProjDataInfoGE, axial position inside a truncated axial range, Blocks/Generic classes."),
+                 "max_segment+1 - with disjoint intervals exactly the reader contract (lemma). (k) history: the seven setters the lazily built ring-pair tables depend on "
+                 "(set_min/max_ring_difference, set_ring_spacing, set_num_axial_poss_per_segment, set_min/max_axial_pos_num, reduce_segment_range) preserve the class invariant "
+                 "'validity flag raised => nothing the tables were built from has changed since' (ghost updated at every write of such a member). Not decided: ProjDataInfoGE, axial position inside a truncated axial range, Blocks/Generic classes."),
         "note": ("trusted: cbmc 6.11.0 + kissat/MiniSat; lookup tables are projected onto one nondeterministic ghost cell; readers of a table see the "
                  "filler's postcondition; segments' ring-difference intervals disjoint and increasing with the segment number (established by the constructors, assumed); "
                  "per-segment values |.|<2^15; N, view mashing, TOF mashing factor and ring-pair count are swept as constants"),
@@ -137,13 +139,16 @@ CLAIMED = {
                  "loop contracts); the verdict loop returns true only if every entry equals entry 0 and false only with a subset that differs from entry 0. "
                  "(g) the sub-iteration loop of IterativeReconstruction::reconstruct presents every sub-iteration number from the start "
                  "to the last exactly once and in order to update_estimate (loop contract; early termination nondeterministic). "
+                 "(i) randomly_permute_subset_order (real body, three loop contracts, per number of subsets up to 24 quick / 48 and 64 thorough): the random order has index range "
+                 "[0,num_subsets), and every subset number occurs in it exactly once, for every value rand() can return (the float index computation is part of the kernel) - the contract "
+                 "the get_subset_num jobs use for the call. "
                  "(h) the class invariant all of this rests on - 90-degree symmetry only with the 180-degree one and a number of views divisible by 4, "
                  "180-degree symmetry only for an even number of views, TOF data only the z-shift - is established by the constructor "
                  "(two statement kernels + lemma; float conditions nondeterministic). "
                  "All symmetry switches symbolic. Not decided: that an entry is the sum of its contributions (read from the single '+='), "
                  "that every update_estimate passes get_subset_num()'s value on (syntactic static fact only), other symmetry classes."),
         "note": ("trusted: cbmc 6.11.0 + kissat; view range [0,num_views), "
-                 "symmetric segment range; randomly_permute_subset_order delivers a permutation (assumed); std::vector modelled by "
+                 "symmetric segment range; rand() in [0,RAND_MAX]; std::vector modelled by "
                  "bounded array / ghost counters; parametric: num_subsets swept as constants"),
     },
     "C08": {
@@ -190,8 +195,10 @@ CLAIMED = {
                  "factor with the indices the factor kind prescribes. "
                  "(g) the range accessors get_min_rb/get_max_rb/get_min_b/get_max_b/get_max_a/get_max_ra return the ranges the geometry prescribes; "
                  "iterate_efficiencies visits every partner of a detector's fan exactly once (four nested loop contracts). "
-                 "Not decided: that the division undoes the multiplication (rounding), the rotation/mirror map of apply_geo_norm, iterate_efficiencies, the sums around the element "
-                 "update, KL descent of the ML iterations, the loops around the maps; the FanProjData and GeoData3D constructors, GeoData3D::is_in_data and operator() ARE under contract (index ranges = reader contracts, element addressed inside them); BlockData3D / DetPairData are not."),
+                 "(h) make_block_data adds every pair of the stored half exactly once, to the block cell named by the four quotients, and nothing else (four nested loop contracts, per block geometry); "
+                 "FanProjData::sum(ra,a) reads every partner of the fan exactly once at (ra,a,rb,b mod N) (two loop contracts). "
+                 "Not decided: that the division undoes the multiplication (rounding), the rotation/mirror map of apply_geo_norm and make_geo_data, the float sums themselves (only which elements enter them), "
+                 "update, KL descent of the ML iterations, the loops around the maps; the FanProjData and GeoData3D constructors, GeoData3D::is_in_data and operator() ARE under contract (index ranges = reader contracts, element addressed inside them); BlockData3D is a typedef of FanProjData (covered); the 2D classes DetPairData / GeoData / BlockData are not."),
         "note": ("trusted: cbmc 6.11.0 + kissat; IndexRange/Array grow deliver the requested ranges (C11); bin <-> detector "
                  "pair maps are C01"),
     },
